@@ -7,6 +7,7 @@ import endguard
 import p_multidim
 import p_search
 import p_own
+import p_guards
 
 VERIF = os.path.dirname(os.path.dirname(os.path.abspath(__file__)))
 
@@ -196,4 +197,21 @@ PROPS['C19'] = {
     'trusted_base': DEFAULT_TRUSTED_BASE + ['the table of owning std containers in rules/p_own.py (std::vector, basic_string, pair, tuple, set, ...)',
                                             'implicit/defaulted special members copy member-wise (C++ semantics)'],
     'assumptions': ['user-supplied key/value types are themselves values', 'the driver exercises all four special operations of every listed class (checked on every run)'],
+}
+
+
+PROPS['C20'] = {
+    'level': 'proof', 'rules': p_guards.rules_c20,
+    'technique': 'static analysis: guard dominance on the instantiated CFG (throw of the documented type, under the documented condition, dominating the first effect), finite-domain evaluation of the base check, call-graph closure of segmentation callers, try/catch shape of the C boundary',
+    'decides': [
+        'G1/G2: PGMIndex::build and the CompressedPGMIndex constructor throw std::invalid_argument under `last element == sentinel`, dominating every segmentation call; G3: no other pgm::/cpgm function calls make_segmentation{,_par}, and every index construction goes through build()',
+        'G4: DynamicPGMIndex(base,...) throws for exactly the non-powers-of-two among 2..255 (condition evaluated exhaustively) before any level is allocated; G5: the bulk-load constructor throws when the next key is smaller than the last stored key, before the pair is stored; G6: ItemA(key,value) throws under value == tombstone; G7: range() throws under lo > hi before any level is read',
+        'G8: the Multidimensional constructor tests the width of every coordinate before encoding (std::runtime_error) and RangeIterator throws std::invalid_argument under zmin > zmax before searching',
+        'G9: add_point throws std::logic_error under `hull non-empty && x <= last_x` before any state change, and last_x is updated to x on every accepted point; G10: the builder rejects a negative epsilon (vacuous for unsigned rank types)',
+        'G11: the eight C *_create functions turn std::invalid_argument into NULL; G12: insert_or_assign constructs the (possibly throwing) Item before the first mutating call, so a rejected insert leaves the container unchanged',
+    ],
+    'not_decided': '-',
+    'explanation': 'Full static claim for C20: each listed rejection is a dominance fact of the CFG plus a comparison of the guard condition with its specification '
+                   '(by operand identity, or exhaustively for the finite-domain base check).',
+    'assumptions': ['input data is sorted (the reserved value, being the largest, can only be the last element)'],
 }
